@@ -41,6 +41,40 @@ def grad_overrides(prog, cls, scalar):
     return out
 
 
+def linear_in(t, x):
+    """(a, b) with t = a*x + b for rational constants a, b; None when t is not of that form"""
+    k = t[0]
+    if k == 'num':
+        return (Fraction(0), Fraction(t[1]))
+    if k == 'sym':
+        return (Fraction(1), Fraction(0)) if t[1] == x else None
+    if k == 'neg':
+        r = linear_in(t[1], x)
+        return None if r is None else (-r[0], -r[1])
+    if k == 'add':
+        a = b = Fraction(0)
+        for y in t[1]:
+            r = linear_in(y, x)
+            if r is None:
+                return None
+            a, b = a + r[0], b + r[1]
+        return (a, b)
+    if k == 'mul':
+        a, b = Fraction(0), Fraction(1)
+        for y in t[1]:
+            r = linear_in(y, x)
+            if r is None or (r[0] != 0 and a != 0):
+                return None
+            if r[0] != 0:
+                a, b = r[0] * b, r[1] * b
+            else:
+                a, b = a * r[1], b * r[1]
+        return (a, b)
+    if k == 'call' and t[1] == 'trunc' and len(t[2]) == 1:
+        return linear_in(t[2][0], x)
+    return None
+
+
 def is_error_value(t):
     """literal -1 or a NaN constructor: independent of point and parameters by construction"""
     if t[0] == 'neg' and t[1][0] == 'num' and t[1][1] == 1:
@@ -89,9 +123,11 @@ def run(ctx, prog):
                 if not has_dir:
                     dirs = [(None, 0)]
                 else:
-                    # collect labels of every switch on the path
+                    # Every integer the direction is compared with (case labels, if/else and ternary tests, inlined helpers) is a
+                    # breakpoint; between two breakpoints the function takes the same path for every direction.  Testing each
+                    # breakpoint and its two neighbours, 1..n, and the two ends therefore covers every int.
                     E0 = terms.Evaluator(prog, dyn_class=cls, scalar=scalar)
-                    E0.run(f, arg_names=names)
+                    outs0 = E0.run(f, arg_names=names)
                     labels = set()
                     for ls in E0.trace.switch_labels:
                         for l in ls:
@@ -99,11 +135,47 @@ def run(ctx, prog):
                                 labels.add(int(l))
                             elif l is None:
                                 raise AnalysisBroken('%s: non-constant case label' % key0)
-                    if not E0.trace.switch_labels:
-                        ctx.ob('C07.G2', key0 + '|dispatch', False, f.where, 'no switch on the direction argument')
+                    odd = []
+
+                    def scan(c):
+                        if not isinstance(c, tuple) or not c:
+                            return
+                        if c[0] == 'cmp':
+                            if 'i' not in terms.syms(c):
+                                return
+                            la, lb = linear_in(c[2], 'i'), linear_in(c[3], 'i')
+                            if la is None or lb is None or la[0] == lb[0]:
+                                odd.append(terms.fmt(c)[:60])
+                                return
+                            # (a1 - a2) i + (b1 - b2) ~ 0: the comparison changes its value only around -(b1-b2)/(a1-a2)
+                            q_ = -(la[1] - lb[1]) / (la[0] - lb[0])
+                            labels.add(int(q_.numerator // q_.denominator))
+                            labels.add(int(-((-q_.numerator) // q_.denominator)))
+                            return
+                        if c[0] == 'switch-default':
+                            return
+                        for x_ in c[1:]:
+                            if isinstance(x_, tuple):
+                                if x_ and isinstance(x_[0], str):
+                                    scan(x_)
+                                else:
+                                    for y_ in x_:
+                                        scan(y_)
+                    for o_ in outs0:
+                        for c_ in o_.conds:
+                            scan(c_)
+                        if o_.ret is not None:
+                            for st in terms.subterms(o_.ret):
+                                if st[0] == 'ite':
+                                    scan(st[1])
+                    if odd:
+                        ctx.ob('C07.G2', key0 + '|dispatch', None, f.where, 'the direction is tested other than by comparison with integer constants (%s): the finite set of representatives is not justified' % odd[:2])
                         continue
-                    rep = [max(labels | {nspace}) + 1, min(labels | {1}) - 1]
-                    dirs = [(v, v) for v in sorted(labels | set(range(1, nspace + 1)))] + [('other>', rep[0]), ('other<', rep[1])]
+                    cand = set(range(0, nspace + 2)) | {-1}
+                    for l in labels:
+                        cand |= {l - 1, l, l + 1}
+                    cand |= {min(cand) - 1, max(cand) + 1, -2 ** 31, 2 ** 31 - 1}
+                    dirs = [(v, v) for v in sorted(cand)]
                 for lab, v in dirs:
                     E = terms.Evaluator(prog, dyn_class=cls, scalar=scalar)
                     bind = {len(f.params) - 1: terms.num(v)} if has_dir else None
